@@ -25,6 +25,7 @@ PyObj.declare('OFloat', ('of', F64))
 PyObj.declare('OStr', ('os', STR))
 PyObj.declare('OBytes', ('oy', BYTES))
 PyObj.declare('OOther', ('oo', OTHER))
+PyObj.declare('OType', ('ot', TYPE))
 PyObj = PyObj.create()
 
 
@@ -82,7 +83,6 @@ class Bin:
 
 class Opaque:
     """Term of an uninterpreted / model-specific sort with a kind tag."""
-    __slots__ = ('kind', 't')
 
     def __init__(self, kind, t):
         self.kind = kind
@@ -229,6 +229,10 @@ def to_pyobj(v):
             return PyObj.OBytes(v.t)
     if isinstance(v, Opaque) and v.kind == 'other':
         return PyObj.OOther(v.t)
+    if isinstance(v, SymType):
+        return PyObj.OType(v.t)
+    if isinstance(v, PyType):
+        return PyObj.OType(z3.Const('type_' + v.name.replace('.', '_'), TYPE))
     return None
 
 
